@@ -57,6 +57,10 @@ def strat_sde(draw, tier):
         if all(s_ > 0 for s_ in signs):
             signs[0] = -1.0
         case["x0"] = [x * s_ for x, s_ in zip(case["x0"], signs)]
+    # initial values written as integers (an integer-typed array)
+    if coef in ("diag", "constant") and draw(st.integers(0, 5)) == 0:
+        case["x0"] = [int(draw(st.integers(1, 3))) * (-1 if x < 0 else 1) for x in case["x0"]]
+        case["x0_int"] = True
     return case
 
 
@@ -94,7 +98,7 @@ def _build(case):
         a = ForwardMarketSDEFunction(sigma=np.array(case["sigma"], dtype=float), tenors=_tenors_arg(case))
     else:
         a = LiborSDEFunction(sigma=np.array(case["sigma"], dtype=float), tenors=_tenors_arg(case))
-    model = LevyDrivenSDEModel(driver=driver, x0=np.array(case["x0"], dtype=float), a=a)
+    model = LevyDrivenSDEModel(driver=driver, x0=np.array(case["x0"], dtype=int if case.get("x0_int") else float), a=a)
     return model, grid, method, driver
 
 
@@ -335,6 +339,7 @@ def classify_sde(case):
     return [case["coef"], f"driver-d={case['d']}", f"m={case['m']}", f"levels={case['levels']}",
             f"paths-before={case.get('paths_before', 0)}"] + ([f"tenors-{case.get('tenor_start')}", f"tenors-as-{case.get('tenors_as', 'array')}"] if case["coef"] in ("libor", "forward", "libor-model") else []) + \
         (["diag/non-positive-initial-value"] if case["coef"] == "diag" and min(case["x0"]) <= 0 else []) + \
+        (["integer-typed-initial-value"] if case.get("x0_int") else []) + \
         (["re-initialised-after-refinement"] if case.get("reinit") and case["levels"] >= 1 else []) + \
         sorted({branch_of(s) for s in case["margins"]}), False
 
